@@ -110,6 +110,13 @@ class NameFixPass(ir.passes.InPlacePass):
         value_counter: collections.Counter[str] = collections.Counter()
         node_counter: collections.Counter[str] = collections.Counter()
 
+        # Names that already exist anywhere in the graph and its subgraphs. A freshly
+        # generated name must not take one of them: the value or node that carries it
+        # may be visited later, and would then lose a name that was unique.
+        self._reserved_value_names, self._reserved_node_names = _collect_existing_names(
+            graph_like
+        )
+
         def enter_graph(graph_like) -> None:
             """Callback for entering a subgraph."""
             # Initialize new scopes with all names from the parent scope
@@ -210,7 +217,9 @@ class NameFixPass(ir.passes.InPlacePass):
         )
 
         preferred_name = self._name_generator.generate_value_name(value)
-        value.name = _find_and_record_next_unique_name(preferred_name, used_names, counter)
+        value.name = _find_and_record_next_unique_name(
+            preferred_name, used_names, counter, self._reserved_value_names
+        )
         logger.debug("Assigned name %s to unnamed value", value.name)
         return True
 
@@ -223,7 +232,9 @@ class NameFixPass(ir.passes.InPlacePass):
         )
 
         preferred_name = self._name_generator.generate_node_name(node)
-        node.name = _find_and_record_next_unique_name(preferred_name, used_names, counter)
+        node.name = _find_and_record_next_unique_name(
+            preferred_name, used_names, counter, self._reserved_node_names
+        )
         logger.debug("Assigned name %s to unnamed node", node.name)
         return True
 
@@ -244,7 +255,9 @@ class NameFixPass(ir.passes.InPlacePass):
 
         # If name is already used, make it unique
         base_name = self._name_generator.generate_value_name(value)
-        value.name = _find_and_record_next_unique_name(base_name, used_names, counter)
+        value.name = _find_and_record_next_unique_name(
+            base_name, used_names, counter, self._reserved_value_names
+        )
         logger.debug("Renamed value from %s to %s for uniqueness", original_name, value.name)
         return True
 
@@ -263,17 +276,53 @@ class NameFixPass(ir.passes.InPlacePass):
 
         # If name is already used, make it unique
         base_name = self._name_generator.generate_node_name(node)
-        node.name = _find_and_record_next_unique_name(base_name, used_names, counter)
+        node.name = _find_and_record_next_unique_name(
+            base_name, used_names, counter, self._reserved_node_names
+        )
         logger.debug("Renamed node from %s to %s for uniqueness", original_name, node.name)
         return True
 
 
+def _collect_existing_names(graph_like: ir.Graph | ir.Function) -> tuple[set[str], set[str]]:
+    """Collect the names of all values and nodes in the graph and its subgraphs."""
+    value_names: set[str] = set()
+    node_names: set[str] = set()
+
+    def add_value(value: ir.Value | None) -> None:
+        if value is not None and value.name:
+            value_names.add(value.name)
+
+    def enter_graph(graph) -> None:
+        for value in graph.inputs:
+            add_value(value)
+        for value in graph.outputs:
+            add_value(value)
+        if isinstance(graph, ir.Graph):
+            for value in graph.initializers.values():
+                add_value(value)
+
+    for node in ir.traversal.RecursiveGraphIterator(graph_like, enter_graph=enter_graph):
+        if node.name:
+            node_names.add(node.name)
+        for value in node.inputs:
+            add_value(value)
+        for value in node.outputs:
+            add_value(value)
+    return value_names, node_names
+
+
 def _find_and_record_next_unique_name(
-    preferred_name: str, used_names: set[str], counter: collections.Counter[str]
+    preferred_name: str,
+    used_names: set[str],
+    counter: collections.Counter[str],
+    reserved_names: set[str] | frozenset[str] = frozenset(),
 ) -> str:
-    """Generate a unique name based on the preferred name and current counter."""
+    """Generate a unique name based on the preferred name and current counter.
+
+    Candidates that are in ``reserved_names`` are skipped as well.
+    """
     new_name = preferred_name
-    while new_name in used_names:
+    while new_name in used_names or new_name in reserved_names:
         counter[preferred_name] += 1
         new_name = f"{preferred_name}_{counter[preferred_name]}"
     used_names.add(new_name)
